@@ -237,8 +237,38 @@ def ref_specs():
     S.append(lazy_fn_spec("rdd2.position_control", lambda: m.derive_position_control()["position_control"], scalar=False))
     S.append(lazy_fn_spec("loglinear.se23_position_control", lambda: ml.derive_outerloop_control()["se23_position_control"], scalar=False))
     S.append(lazy_fn_spec("bezier.f_ref", lambda: bz.derive_ref()["f_ref"], scalar=False))
-    S.append(lazy_fn_spec("mr_ref_traj.mr_ref_traj", lambda: mr.derive_mr_ref_traj()["mr_ref_traj"], scalar=False))
+    S.append(lazy_fn_spec("mr_ref_traj.mr_ref_traj", lambda: mr.derive_mr_ref_traj()["mr_ref_traj"],
+                          cuts=("omega_eb_b", "omega_dot_eb_b")))
     S.append(lazy_fn_spec("bezier.eulerB321_to_quat", lambda: bz.derive_eulerB321_to_quat()["eulerB321_to_quat"]))
+    return S
+
+
+def util_specs():
+    import cyecca.util as u
+    S = []
+    for n in range(1, 5):
+        S.append(Spec("util.ldl%d" % n, [("P", (n, n))], (lambda P: (lambda LD: [("L", LD[0]), ("D", LD[1])])(u.ldl_symmetric_decomposition(P))), calls=False))
+        S.append(Spec("util.udu%d" % n, [("P", (n, n))], (lambda P: (lambda UD: [("U", UD[0]), ("D", UD[1])])(u.udu_symmetric_decomposition(P))), calls=False))
+    def rk_cubic(t, y, h, c):
+        return [("y1", u.rk4(lambda tt, yy: c[0] + c[1] * tt + c[2] * tt ** 2 + c[3] * tt ** 3, t, y, h))]
+    S.append(Spec("util.rk4_cubic", [("t", (1, 1)), ("y", (1, 1)), ("h", (1, 1)), ("c", (4, 1))], rk_cubic, calls=False))
+    def rk_linear(y, h, lam):
+        t = ca.SX.sym("t")
+        return [("y1", u.rk4(lambda tt, yy: lam * yy, t, y, h))]
+    S.append(Spec("util.rk4_linear", [("y", (1, 1)), ("h", (1, 1)), ("lam", (1, 1))], rk_linear, calls=False))
+    def rk_affine2(y, h, A, b):
+        t = ca.SX.sym("t")
+        return [("y1", u.rk4(lambda tt, yy: A @ yy + b, t, y, h))]
+    S.append(Spec("util.rk4_affine2", [("y", (2, 1)), ("h", (1, 1)), ("A", (2, 2)), ("b", (2, 1))], rk_affine2, calls=False))
+    for n in (2, 3):
+        def pred(W, F, Q, n=n):
+            return [("Wdot", u.sqrt_covariance_predict(ca.tril(W), F, Q))]
+        S.append(Spec("util.sqrt_predict%d" % n, [("W", (n, n)), ("F", (n, n)), ("Q", (n, n))], pred, calls=False))
+    for (n, m) in ((1, 1), (2, 1)):
+        def corr(Rs, H, W, n=n, m=m):
+            Wp, K, Ss = u.sqrt_correct(ca.tril(Rs), H, ca.tril(W))
+            return [("Wp", Wp), ("K", K), ("Ss", Ss)]
+        S.append(Spec("util.sqrt_correct_%d_%d" % (n, m), [("Rs", (m, m)), ("H", (m, n)), ("W", (n, n))], corr, calls=False))
     return S
 
 
@@ -257,4 +287,5 @@ MODULES = {
     "Ins": (ins_specs, ("Series",)),
     "Ctrl": (ctrl_specs, ("Series",)),
     "Ref": (ref_specs, ("Series",)),
+    "Util": (util_specs, ("Series",)),
 }
